@@ -430,6 +430,28 @@ void cmb_timeseries_sort_t(struct cmb_timeseries *tsp)
 }
 
 /*
+ * The weighted quantile of a value-sorted series: the first (smallest) value
+ * at which the cumulated weight reaches the fraction q of the total weight.
+ * At most q of the weight lies strictly below it, at most 1 - q strictly above.
+ */
+static double weighted_quantile(const uint64_t un,
+                                const double xa[un],
+                                const double wcum[un],
+                                const double q)
+{
+    cmb_assert_debug(un > 0u);
+
+    const double wq = q * wcum[un - 1u];
+    for (uint64_t ui = 0u; ui < un; ui++) {
+        if (wcum[ui] >= wq) {
+            return xa[ui];
+        }
+    }
+
+    return xa[un - 1u];
+}
+
+/*
  * Takes a copy before sorting, leaving tsp unchanged.
  */
 double cmb_timeseries_median(const struct cmb_timeseries *tsp)
@@ -453,17 +475,7 @@ double cmb_timeseries_median(const struct cmb_timeseries *tsp)
         wcum[ui] = wsum;
     }
 
-    const double wmid = 0.5 * wsum;
-    double r = 0.0;
-     for (uint64_t ui = 0u; ui < un - 1; ui++) {
-        if ((wcum[ui] <= wmid) && (wcum[ui + 1] > wmid)) {
-            cmb_assert_debug(wcum[ui + 1] > wcum[ui]);
-            r = dsp->xa[ui] + (dsp->xa[ui + 1]
-                            - dsp->xa[ui]) * (wmid - wcum[ui])
-                               / (wcum[ui + 1] - wcum[ui]);
-            break;
-        }
-    }
+    const double r = weighted_quantile(un, dsp->xa, wcum, 0.5);
 
     cmi_free(wcum);
     cmb_timeseries_reset(&tmp_ts);
@@ -496,35 +508,9 @@ void cmb_timeseries_fivenum_print(const struct cmb_timeseries *tsp,
         wcum[ui] = wsum;
     }
 
-    const double w025 = 0.25 * wsum;
-    const double w050 = 0.50 * wsum;
-    const double w075 = 0.75 * wsum;
-
-    double x025 = 0.0;
-    double x050 = 0.0;
-    double x075 = 0.0;
-    for (uint64_t ui = 0u; ui < un - 1; ui++) {
-        if ((wcum[ui] <= w025) && (wcum[ui + 1] > w025)) {
-            cmb_assert_debug(wcum[ui + 1] > wcum[ui]);
-            x025 = dsp->xa[ui] + (dsp->xa[ui + 1]
-                               - dsp->xa[ui]) * (w025 - wcum[ui])
-                                  / (wcum[ui + 1] - wcum[ui]);
-        }
-
-        if ((wcum[ui] <= w050) && (wcum[ui + 1] > w050)) {
-            cmb_assert_debug(wcum[ui + 1] > wcum[ui]);
-            x050 = dsp->xa[ui] + (dsp->xa[ui + 1]
-                               - dsp->xa[ui]) * (w050 - wcum[ui])
-                                  / (wcum[ui + 1] - wcum[ui]);
-        }
-
-        if ((wcum[ui] <= w075) && (wcum[ui + 1] > w075)) {
-            cmb_assert_debug(wcum[ui + 1] > wcum[ui]);
-            x075 = dsp->xa[ui] + (dsp->xa[ui + 1]
-                               - dsp->xa[ui]) * (w075 - wcum[ui])
-                                  / (wcum[ui + 1] - wcum[ui]);
-        }
-    }
+    const double x025 = weighted_quantile(un, dsp->xa, wcum, 0.25);
+    const double x050 = weighted_quantile(un, dsp->xa, wcum, 0.50);
+    const double x075 = weighted_quantile(un, dsp->xa, wcum, 0.75);
 
     cmb_assert_debug((xmin <= x025) && (x025 <= x050)
                   && (x050 <= x075) && (x075 <= xmax));
